@@ -334,6 +334,21 @@ def oracle(case, obs):
         bad('flag-iff-dot', 'the solved flag must be True exactly for status ".": returned %s with status %r' % (out[1], st))
     if any(obs['status'][i] != c['status'][i] or obs['iters'][i] != c['iters'][i] for i in range(n) if i != p):
         bad('other-periods', 'status/iterations changed at a period other than t')
+    # 'E' is the status of the 'raise' policy and 'S' that of the 'skip' policy: no other policy may write them
+    if (st, it) != (c['status'][p], c['iters'][p]):
+        if st == 'E' and errors != 'raise':
+            bad('E-only-under-raise', 'status E was recorded under errors=%r (only errors="raise" records E); outcome %s' % (errors, out))
+        if st == 'S' and errors != 'skip':
+            bad('S-only-under-skip', 'status S was recorded under errors=%r (only errors="skip" records S); outcome %s' % (errors, out))
+    # the warnings filter: only errors='raise' together with catch_first_error turns a warning into an exception; under every
+    # other policy ('skip' gives S and NO exception, 'ignore' / 'replace' keep iterating, 'raise' without catch_first_error
+    # judges after the pass) a warning must never surface
+    if not (errors == 'raise' and o['catch_first_error']):
+        for r in obs['raised']:
+            if r[3] == 'RuntimeWarning':
+                bad('warning-filter', 'a warning surfaced as an exception in %s %d although errors=%r, catch_first_error=%r (only '
+                    'errors="raise" with catch_first_error stops at the warning); got %s' % (r[0], r[2], errors, o['catch_first_error'], out))
+                break
     if o['min_iter'] > o['max_iter'] or o['offset'] != 0 or p < c.get('lags', 0) or p >= n - c.get('leads', 0):
         return fails                                     # C02's clauses
     c0 = [lib.unhex(c['vals'][i][p]) for i in c['check']]
